@@ -8,7 +8,6 @@ import (
 	"fmt"
 	"math"
 	"os"
-	"runtime/pprof"
 	"strings"
 	"sync"
 
@@ -112,11 +111,6 @@ func script(path string) {
 
 func main() {
 	if p := os.Getenv("C15_SCRIPT"); p != "" {
-		if pf := os.Getenv("C15_PROF"); pf != "" {
-			f, _ := os.Create(pf)
-			pprof.StartCPUProfile(f)
-			defer pprof.StopCPUProfile()
-		}
 		script(p)
 		return
 	}
